@@ -11,6 +11,7 @@ C13 — reference artefacts, written from the language definitions and independe
 
 Core only.
 -/
+import DarkluaModel.C13.Ieee
 namespace DarkluaModel.C13.Spec
 
 inductive Dialect where
@@ -209,5 +210,135 @@ section ends at the first unescaped `` ` `` or `{`. Returns the denoted bytes an
 (starting with that terminator). -/
 def decodeInterpSegment (text : List UInt8) : Option (List UInt8 × List UInt8) :=
   decodeBody .luau (fun c => c == 96 || c == 123) text
+
+/-! # number literals by Luau's rules (Luau `Lexer::readNumber`, `Parser::parseNumber`) -/
+
+def isAlpha (c : UInt8) : Bool := (97 ≤ c && c ≤ 122) || (65 ≤ c && c ≤ 90)
+
+/-- `Lexer::readNumber`: how many bytes of `text` the number token starting at its first
+byte takes (the caller has seen a digit, or `.` followed by a digit). -/
+def numberTokenLength (text : List UInt8) : Nat :=
+  match text with
+  | [] => 0
+  | _ :: rest =>
+    let run1 := rest.takeWhile fun c => isDigit c || c == 46 || c == 95
+    let after1 := rest.drop run1.length
+    let (expPart, after2) : Nat × List UInt8 := match after1 with
+      | c :: r =>
+        if c == 101 || c == 69 then
+          match r with
+          | s :: r' => if s == 43 || s == 45 then (2, r') else (1, r)
+          | [] => (1, r)
+        else (0, after1)
+      | [] => (0, after1)
+    let run2 := after2.takeWhile fun c => isAlpha c || isDigit c || c == 95
+    1 + run1.length + expPart + run2.length
+
+/-- the whole text is exactly one number token -/
+def isNumberToken (text : List UInt8) : Bool :=
+  (match text with
+   | c :: d :: _ => isDigit c || (c == 46 && isDigit d)
+   | [c] => isDigit c
+   | [] => false) && numberTokenLength text == text.length
+
+/-- what a number token denotes -/
+inductive NumDesc where
+  /-- `0x…` / `0b…`: an unsigned integer (converted to a double by rounding) -/
+  | int (n : Nat)
+  /-- decimal: `digits × 10^exp10` (converted by correct rounding, as `strtod` does) -/
+  | dec (digits : Nat) (exp10 : Int)
+  deriving DecidableEq, Repr
+
+def digitsValue (base : Nat) (ds : List UInt8) : Nat :=
+  ds.foldl (fun acc c => acc * base + (hexVal? c).getD 0) 0
+
+/-- C `strtod` restricted to what can follow in a number token (no sign, no blanks, not hex):
+`digits* [. digits*] [(e|E) [+-] digits+]` with at least one mantissa digit, all consumed. -/
+def strtodDecimal (s : List UInt8) : Option NumDesc :=
+  let ip := s.takeWhile isDigit
+  let r := s.drop ip.length
+  let (fp, r) : List UInt8 × List UInt8 := match r with
+    | 46 :: r' => (r'.takeWhile isDigit, r'.drop (r'.takeWhile isDigit).length)
+    | _ => ([], r)
+  if ip.isEmpty && fp.isEmpty then none
+  else
+    let mant := digitsValue 10 (ip ++ fp)
+    match r with
+    | [] => some (.dec mant (-(fp.length : Int)))
+    | c :: r' =>
+      if c == 101 || c == 69 then
+        let (neg, ed) : Bool × List UInt8 := match r' with
+          | 43 :: x => (false, x)
+          | 45 :: x => (true, x)
+          | x => (false, x)
+        if ed.isEmpty || !ed.all isDigit then none
+        else
+          let e : Int := digitsValue 10 ed
+          some (.dec mant ((if neg then -e else e) - (fp.length : Int)))
+      else none
+
+/-- `strtoull(s, &end, base)` with `*end == 0` required, on digit-only input -/
+def strtoullAll (base : Nat) (s : List UInt8) : Option Nat :=
+  if s.isEmpty then none    -- (Luau reads an empty digit run as 0; not part of the grammar here)
+  else if s.all fun c => (hexVal? c).any (· < base) then
+    -- above 2^64-1 `strtoull` reports ERANGE and Luau raises "… exceeded available precision"
+    let n := digitsValue base s
+    if n ≤ 18446744073709551615 then some n else none
+  else none
+
+/-- `Parser::parseNumber` on the text of one number token: underscores are dropped, then
+`0x`/`0X` → base-16 integer, `0b`/`0B` → base-2 integer, otherwise `strtod`. -/
+def luauNumber? (text : List UInt8) : Option NumDesc :=
+  if !isNumberToken text then none
+  else
+    let s := text.filter (· != 95)
+    match s with
+    | 48 :: x :: rest =>
+      if x == 120 || x == 88 then (strtoullAll 16 rest).map .int
+      else if x == 98 || x == 66 then (strtoullAll 2 rest).map .int
+      else strtodDecimal s
+    | _ => strtodDecimal s
+
+def descBits : NumDesc → UInt64
+  | .int n => Ieee.roundRat n 1
+  | .dec digits exp10 => Ieee.ofDecimal false digits exp10
+
+/-- the double a Luau number token denotes (bit pattern) -/
+def numberValue (text : List UInt8) : Option UInt64 := (luauNumber? text).map descBits
+
+def nanBits : UInt64 := 0x7ff8000000000000
+def negBits (b : UInt64) : UInt64 :=
+  if b.toNat ≥ 2 ^ 63 then UInt64.ofNat (b.toNat - 2 ^ 63) else UInt64.ofNat (b.toNat + 2 ^ 63)
+
+/-- `-`? literal -/
+def signedValue (text : List UInt8) : Option UInt64 :=
+  match text with
+  | 45 :: rest => (numberValue rest).map negBits
+  | _ => numberValue text
+
+/-- IEEE division of two finite doubles -/
+def divBits (a b : UInt64) : UInt64 :=
+  let neg := Ieee.signBit a != Ieee.signBit b
+  if Ieee.isZeroBits b then
+    if Ieee.isZeroBits a then nanBits
+    else if neg then 0xfff0000000000000 else 0x7ff0000000000000
+  else
+    let (_, an, ad) := Ieee.toRat a
+    let (_, bn, bd) := Ieee.toRat b
+    Ieee.ofRat neg (an * bd) (ad * bn)
+
+/-- The value of a small piece of Luau source as the writers produce it: a literal, `-` literal,
+or a division `a/b` of two of those, optionally inside one pair of parentheses
+(`(0/0)`, `(-1/0)`, `1/0`, `-0`, `1.5e3` …). Unary minus binds tighter than `/`. -/
+def evalWritten (text : List UInt8) : Option UInt64 :=
+  let inner := match text with
+    | 40 :: rest => if rest.getLast? == some 41 then rest.dropLast else text
+    | _ => text
+  let i := inner.findIdx (· == 47)
+  if i < inner.length then
+    match signedValue (inner.take i), signedValue (inner.drop (i + 1)) with
+    | some a, some b => some (divBits a b)
+    | _, _ => none
+  else signedValue inner
 
 end DarkluaModel.C13.Spec
